@@ -394,6 +394,27 @@ pub fn run(tier: &str, seed: u64) -> i32 {
     let adv = adversarial_docs();
     let n = if tier == "thorough" { 300_000 } else { 9_000 };
 
+    // field-to-field comparisons (only the condition can express them) and-ed into groups that sit
+    // inside or-groups sharing their fields: whatever the optimiser builds from them must be solvable
+    for (idents, cond) in [
+        ("  A:\n    c: x\n    d: y\n  B:\n  - a: 1\n    c: x\n  - a: 2\n    d: y\n", "(int(a) == int(b) and A) or B"),
+        ("  A:\n    c: x\n    d: y\n  B:\n  - a: 1\n    c: x\n  - a: 2\n    d: y\n", "B or (A and flt(a) <= flt(b))"),
+        ("  A:\n    c: x\n  B:\n  - a: '1'\n    c: x\n  - a: '2'\n    c: z\n", "(str(a) == str(b) and A and int(a) > 0) or B or A"),
+        ("  A:\n    a: 1\n    c: x\n  B:\n    a: 2\n    c: x\n", "(A and int(a) < int(c)) or (B and int(c) >= int(a)) or A"),
+    ] {
+        let mut c = Case::new("c03.valid");
+        c.rules = vec![format!("detection:\n{idents}  condition: {cond}\ntrue_positives: []\ntrue_negatives: []\n")];
+        c.docs = vec![
+            DObj(vec![("a".to_string(), DocVal::Int(1)), ("b".to_string(), DocVal::Int(1)), ("c".to_string(), DocVal::s("x")), ("d".to_string(), DocVal::s("y"))]),
+            DObj(vec![("a".to_string(), DocVal::Int(3)), ("b".to_string(), DocVal::Int(3)), ("c".to_string(), DocVal::s("x")), ("d".to_string(), DocVal::s("y"))]),
+            DObj(vec![("a".to_string(), DocVal::s("1")), ("b".to_string(), DocVal::s("1")), ("c".to_string(), DocVal::s("x"))]),
+            DObj(vec![("a".to_string(), DocVal::Int(3)), ("c".to_string(), DocVal::s("x")), ("d".to_string(), DocVal::s("y"))]),
+            DObj(vec![("c".to_string(), DocVal::s("x")), ("d".to_string(), DocVal::s("y"))]),
+        ];
+        let out = judge(&c);
+        report.label("field_to_field_comparison_in_groups");
+        report.record(&c, out);
+    }
     // a single regex close to the regex crate's size limit next to other members (whatever limit
     // the loader compiles it with, the optimiser has to cope with what was loaded)
     for body in [
